@@ -661,7 +661,12 @@ def check_pa_methods(res, facts, owner, prop):
     # tick(): acc' = (acc + inc) mod 2^T, stays <= mask for EVERY increment that does not overflow the addition
     it = dds.interp()
     st = State()
-    pa = dds.make_pa(it, st, total, index, inc_range=(0, 2 ** 32 - 1 - mask), rolled=None)
+    # every value the increment field can hold (a signed field includes the negative ones: `set_frequency` stores the
+    # saturating cast of an arbitrary finite f32), short of overflowing the unsigned addition
+    from ..interp import INT_RANGES as _IR
+    ity = next((f['ty'].get('n') for f in facts.adt(PA)['variants'][0]['fields'] if f['name'] == 'increment'), 'u32')
+    ilo, ihi = _IR.get(ity, (0, 2 ** 32 - 1))
+    pa = dds.make_pa(it, st, total, index, inc_range=(ilo, min(ihi, 2 ** 32 - 1 - mask)), rolled=None)
     pre = copy.deepcopy(pa)
     outs, cell = call_pa(dds, it, st, 'tick', pa, [], total, index)
     res.absorb(it)
